@@ -62,6 +62,54 @@ def main(n, seed):
                 want = {md5(files["sub/p"]), md5(files["sub/q"])}
                 if not want <= set(r1.all()):
                     return "the remote designated for data/sub received nothing although the objects below it are reachable"
+            elif kind == "fault-in-one-remote":
+                # two remotes behind two prefixes; every upload of one object bound for ONE of them fails (each remote in turn):
+                # pushed + failed add up to the objects that had to move, and failed counts what did not arrive
+                for victim_remote in (0, 1):
+                    sub = os.path.join(tmp, f"v{victim_remote}"); os.makedirs(sub)
+
+                    class FFS(LocalFileSystem):
+                        fail: set = set()
+
+                        def put_file(self, from_file, to_info, callback=None, **kw):
+                            if any(o in str(to_info).replace(os.sep, "") for o in self.fail):
+                                raise OSError(5, "injected upload fault", str(to_info))
+                            return super().put_file(from_file, to_info, callback=callback, **kw)
+
+                    cache = HashFileDB(fs, os.path.join(sub, "cache")); os.makedirs(cache.path)
+                    rems = [HashFileDB(FFS() if i == victim_remote else fs, os.path.join(sub, f"R{i}")) for i in (0, 1)]
+                    for r in rems:
+                        os.makedirs(r.path)
+                    objs = {}
+                    for i, pfx in enumerate(("a", "b")):
+                        for j in range(2):
+                            d = f"{case}-{pfx}-{j}".encode(); cache.add_bytes(md5(d), d); objs[(pfx, f"f{j}")] = md5(d)
+                    FFS.fail = {objs[(("a", "b")[victim_remote], "f0")]}
+                    idx = DataIndex({k: DataIndexEntry(key=k, meta=Meta(), hash_info=HashInfo("md5", o)) for k, o in objs.items()})
+                    for i, pfx in enumerate(("a", "b")):
+                        idx.storage_map.add_cache(ObjectStorage((pfx,), cache)); idx.storage_map.add_remote(ObjectStorage((pfx,), rems[i]))
+                    pushed, failed = push(collect([idx], "remote", push=True))
+                    arrived = len(set(rems[0].all())) + len(set(rems[1].all()))
+                    if pushed + failed != 4 or failed != 4 - arrived:
+                        return (f"two remotes, an upload to R{victim_remote} fails: pushed={pushed} failed={failed}, but 4 objects had to move and "
+                                f"{4 - arrived} did not arrive")
+            elif kind == "verifying-remote-corrupt":
+                # the REMOTE is configured to verify what is downloaded from it (the cache is not); one of its objects holds other
+                # bytes than its name says: fetch must not leave those bytes in the cache nor count the object as fetched
+                cache, r0 = odb("cache"), odb("R0")
+                r0.verify = True
+                good, bad = f"good-{case}".encode(), f"bad-{case}".encode()
+                r0.add_bytes(md5(good), good)
+                bp = r0.oid_to_path(md5(bad)); os.makedirs(os.path.dirname(bp), exist_ok=True); open(bp, "wb").write(b"not what the name says")
+                idx = DataIndex({("p", "g"): DataIndexEntry(key=("p", "g"), meta=Meta(), hash_info=HashInfo("md5", md5(good))),
+                                 ("p", "b"): DataIndexEntry(key=("p", "b"), meta=Meta(), hash_info=HashInfo("md5", md5(bad)))})
+                idx.storage_map.add_cache(ObjectStorage(("p",), cache)); idx.storage_map.add_remote(ObjectStorage(("p",), r0))
+                nf, ff = fetch(collect([idx], "remote"))
+                wrong = [o for o in cache.all() if md5(open(cache.oid_to_path(o), "rb").read()) != o]
+                if wrong:
+                    return f"fetch from a verifying remote left an object in the cache whose bytes do not match its name (fetched={nf}, failed={ff})"
+                if md5(good) not in set(cache.all()) or ff < 1:
+                    return f"fetch from a verifying remote with one corrupt object: fetched={nf} failed={ff}, intact object in cache: {md5(good) in set(cache.all())}"
             else:
                 # a partial local cache: the directory object is cached, one listed file is in neither cache nor remote: the
                 # directory must be withheld and reported, never uploaded without the file
@@ -79,10 +127,10 @@ def main(n, seed):
                     return "a directory that could not be delivered completely was not reported as failed"
         return None
 
-    KINDS = ["shared-content-indexed", "nested-prefix-first", "partial-cache"]
+    KINDS = ["shared-content-indexed", "nested-prefix-first", "partial-cache", "fault-in-one-remote", "verifying-remote-corrupt"]
     for case in range(n):
         if case % 5 == 4:
-            kind = KINDS[(case // 5) % 3]
+            kind = KINDS[(case // 5) % len(KINDS)]
             try:
                 pr = special(kind, case)
             except Exception as e:  # noqa: BLE001
@@ -145,7 +193,7 @@ def main(n, seed):
             if problems:
                 fails.append({"prefix->remote": assign, "entries": {"/".join(k): v for k, v in spec.items()}, "problems": problems})
     return {"evaluations": n, "distinct_nontrivial": len(distinct), "failures": fails[:2], "n_failures": len(fails),
-            "bound": "<= 4 disjoint top-level prefixes, <= 3 remotes, <= 3 entries per prefix, directory objects with <= 3 files; every fifth: remote indexes with shared content / a storage prefix inside an unloaded directory / a partial cache"}
+            "bound": "<= 4 disjoint top-level prefixes, <= 3 remotes, <= 3 entries per prefix, directory objects with <= 3 files; every fifth: remote indexes with shared content / a storage prefix inside an unloaded directory / a partial cache / an upload fault in one of two remotes / a verifying remote holding a corrupt object"}
 
 
 if __name__ == "__main__":
